@@ -210,6 +210,16 @@ def ROUND(number, digits):
     return round(number, digits)
 
 
+def _exact(value):
+    # Scaling by a power of ten or dividing by a significance leaves binary noise
+    # (8.8 * 100 is 880.0000000000001, 4.3 / 0.1 is 42.99999999999999); a value that
+    # close to a whole number is that whole number.
+    nearest = round(value)
+    if abs(value - nearest) <= 1e-12 * max(1.0, abs(value)):
+        return nearest
+    return value
+
+
 @dispatcher.register_for('ROUNDUP')
 def ROUNDUP(number, digits):
     number = utils.parse_number(number)
@@ -217,7 +227,7 @@ def ROUNDUP(number, digits):
     if utils.any_is_error((number, digits)):
         return error.VALUE
     sign = 1 if number > 0 else -1
-    return sign * (math.ceil(abs(number) * 10**digits)) / 10**digits
+    return sign * (math.ceil(_exact(abs(number) * 10**digits))) / 10**digits
 
 
 @dispatcher.register_for('ROUNDDOWN')
@@ -227,7 +237,7 @@ def ROUNDDOWN(number, digits):
     if utils.any_is_error((number, digits)):
         return error.VALUE
     sign = 1 if number > 0 else -1
-    return sign * (math.floor(abs(number) * 10**digits)) / 10**digits
+    return sign * (math.floor(_exact(abs(number) * 10**digits))) / 10**digits
 
 
 @dispatcher.register_for('SUM')
@@ -254,12 +264,12 @@ def CEILING(number, significance=1):
     positive_significance = significance > 0
     significance = abs(significance)
     if number >= 0:
-        return math.ceil(number / significance) * significance
+        return math.ceil(_exact(number / significance)) * significance
     else:
         if positive_significance:
-            return -1 * math.floor(abs(number) / significance) * significance
+            return -1 * math.floor(_exact(abs(number) / significance)) * significance
         else:
-            return -1 * math.ceil(abs(number) / significance) * significance
+            return -1 * math.ceil(_exact(abs(number) / significance)) * significance
 
 
 @dispatcher.register_for('FLOOR', 'FLOOR.MATH', 'FLOOR.PRECISE')
@@ -276,12 +286,12 @@ def FLOOR(number, significance=1):
 
     abs_significance = abs(significance)
     if number >= 0:
-        return math.floor(number / abs_significance) * abs_significance
+        return math.floor(_exact(number / abs_significance)) * abs_significance
     else:
         func = math.floor
         if significance > 0:
             func = math.ceil
-        return -1 * func(abs(number) / abs_significance) * abs_significance
+        return -1 * func(_exact(abs(number) / abs_significance)) * abs_significance
 
 
 @dispatcher.register_for('POWER')
@@ -304,7 +314,7 @@ def QUOTIENT(numerator, denominator):
         return error.VALUE
     if denominator == 0:
         return error.DIV_ZERO
-    return int(numerator / denominator)
+    return int(_exact(numerator / denominator))
 
 
 @dispatcher.register_for('MOD')
